@@ -267,11 +267,12 @@ def pmap(fn, items, procs=None, initfn=None, chunksize=1, ordered=True):
 # --------------------------------------------------------------------------- findings
 
 def load_known():
-    path = os.path.join(VERIF, "known_findings.json")
-    if not os.path.exists(path):
-        return []
-    with open(path) as f:
-        return json.load(f).get("findings", [])
+    out = []
+    for path in (os.path.join(VERIF, "known_findings.json"), os.environ.get("VERIF_KNOWN_EXTRA")):
+        if path and os.path.exists(path):
+            with open(path) as f:
+                out.extend(json.load(f).get("findings", []))
+    return out
 
 
 def jsonable(o, depth=0):
